@@ -9,7 +9,7 @@ ID = "C09"
 LEVEL = "exploration"
 RULE = (
     "the finite matrix decorator {asynq, asynq(pure=True), async_proxy, asynq(sync_fn=), async_proxy(sync_fn=), "
-    "make_async_decorator, deduplicate, aretry, alru_cache, acached_per_instance} x binding {function, method via "
+    "make_async_decorator, deduplicate, deduplicate stacked on asynq(sync_fn=), aretry, alru_cache, acached_per_instance} x binding {function, method via "
     "instance, via an instance that is falsy (defines __len__ == 0), via class with explicit instance, via subclass "
     "instance, classmethod via class / instance / subclass, staticmethod via class / instance} (wrappers only on the "
     "bindings they are written for) x 6 argument patterns (positional, keyword, defaults omitted, keyword-only, all "
@@ -23,7 +23,7 @@ RULE = (
 ASSUMPTIONS = ["bodies are deterministic, so cached wrappers (alru_cache, acached_per_instance, deduplicate) return the twin's value on every call"]
 UNIT_TIMEOUT = {"quick": 200, "thorough": 1200}
 
-DECOS = ["asynq", "pure", "proxy", "pair", "proxy_pair", "mad", "dedup", "aretry", "alru", "per_instance"]
+DECOS = ["asynq", "pure", "proxy", "pair", "proxy_pair", "mad", "dedup", "dedup_pair", "aretry", "alru", "per_instance"]
 BODIES = ["plain", "gen", "batch", "reenter"]
 NO_REENTER = ("proxy", "proxy_pair")  # their bodies only build a future; nothing runs "inside" them
 PATTERNS = [
@@ -54,6 +54,9 @@ SUPPORTED = {
     "proxy_pair": ["function", "method_inst", "method_falsy_inst", "method_class_explicit", "method_subclass_inst"],
     "mad": list(BINDINGS),
     "dedup": list(BINDINGS),
+    # (stacking is not among the statement's combinations for classmethods: sync_fn is bound by the pair's own
+    #  __get__, which an outer decorator's binder bypasses)
+    "dedup_pair": ["function", "method_inst", "method_falsy_inst", "method_class_explicit", "method_subclass_inst", "static_class", "static_inst"],
     "aretry": ["function", "method_inst", "method_falsy_inst", "method_class_explicit", "method_subclass_inst"],
     "alru": ["function", "method_inst", "method_falsy_inst", "method_class_explicit", "method_subclass_inst"],
     "per_instance": ["method_inst", "method_falsy_inst", "method_class_explicit", "method_subclass_inst"],
@@ -199,6 +202,11 @@ def build(deco, body, rt):
             return mad(A()(fn))
         if deco == "dedup":
             return deduplicate()(A()(fn))
+        if deco == "dedup_pair":
+            # decorators stacked: the sync call of the stack still runs sync_fn
+            s = mk_sync(kind)
+            s = wrap(s) if wrap is not None else s
+            return deduplicate()(A(sync_fn=s)(fn))
         if deco == "aretry":
             return aretry(ValueError, max_tries=2, sleep=0)(A()(fn))
         if deco == "alru":
@@ -211,6 +219,7 @@ def build(deco, body, rt):
     attrs = {"name": "a", "m": apply("m")}
     if "classmethod_class" in SUPPORTED[deco]:
         attrs["cm"] = apply("c", classmethod)
+    if "static_class" in SUPPORTED[deco]:
         attrs["sm"] = apply("f", staticmethod)
 
     def init(self, name="a"):
@@ -284,7 +293,7 @@ def run_cell(deco, body, binding, pat, argvals=None, shared=None):
     if deco == "mad":
         exp = ("wrapped", exp)
     exp_sync = exp
-    if deco in ("pair", "proxy_pair"):
+    if deco in ("pair", "proxy_pair", "dedup_pair"):
         exp_sync = sync_twin(bound if binding not in ("function", "static_class", "static_inst") else None, *args, **kw)
     viol = []
     nconv = 0
